@@ -420,4 +420,4 @@ pub fn attach_basic_debug_info<T>(rv: Result<T, Error>, source: &str) -> Result<
 
 #[cfg(kani)]
 #[path = "/verif/kani/error.rs"]
-mod verif_kani;
+pub(crate) mod verif_kani;
